@@ -311,8 +311,6 @@ class Engine:
         if sv.t.k == 'tuple' and t.k == 'tuple' and len(sv.t.args) == len(t.args):
             parts = [self.coerce(SV(a, z), b) for a, z, b in zip(sv.t.args, sv.z, t.args)]
             return SV(t, tuple(p.z for p in parts))
-        if sv.t.k == 'opt' and t == sv.t.args[0]:
-            return SV(t, sv.z['v'])
         raise Unsupported(f'cannot coerce {sv.t} to {t}')
 
     def unify(self, a: SV, b: SV):
@@ -538,7 +536,7 @@ class Engine:
 
 
 # --------------------------------------------------------------------------- expression evaluator
-SPEC_FUNCS = {'contains', 'some', 'exc_is', 'sadd', 'sdel', 'forall', 'exists', 'implies', 'iff', 'old', 'card', 'dom', 'ite', 'empty', 'INV', 'subset', 'disjoint',
+SPEC_FUNCS = {'is_identifier', 'is_hex40', 'concat', 'contains', 'some', 'exc_is', 'sadd', 'sdel', 'forall', 'exists', 'implies', 'iff', 'old', 'card', 'dom', 'ite', 'empty', 'INV', 'subset', 'disjoint',
               'fresh_of', 'keys', 'isnone', 'some', 'unopt', 'select', 'tuple_of', 'typed_empty'}
 
 
@@ -898,6 +896,8 @@ class Evaluator:
             x = b if a.t.k == 'none' else a
             if x.t.k == 'none':
                 r = z3.BoolVal(True)
+            elif x.t == U('PV'):
+                r = self.ctx.dt_info['is_PNone'][2](x.z)
             elif x.t.k == 'opt':
                 r = x.z['none']
             else:
@@ -1113,7 +1113,10 @@ class Evaluator:
             self.lift_raises(c, children, shape)
             f = self.eng.rec_function(lifted)
             self.eng.count_use(c)
-            return SV(parse_type(self.R.recfuncs[lifted]['res']), f(children.z))
+            out = SV(parse_type(self.R.recfuncs[lifted]['res']), f(children.z))
+            if isinstance(n, ast.ListComp) and out.t == U('PL'):
+                return SV(U('PV'), self.ctx.dt_info['PList'][2](out.z))       # a list display builds a Python list
+            return out
         return None
 
     def lift_requires(self, c, children, shape):
@@ -1190,7 +1193,7 @@ class Evaluator:
         self.lift_requires(c, children, 'ents')
         self.lift_raises(c, children, 'ents')
         self.eng.count_use(c)
-        return SV(U('PE'), self.eng.rec_function(lifted)(children.z))
+        return SV(U('PV'), self.ctx.dt_info['PDict'][2](self.eng.rec_function(lifted)(children.z)))      # a dict display builds a Python dict
 
     def ev_DictComp(self, n):
         sd = self.struct_dictcomp(n)
@@ -1382,6 +1385,20 @@ class CallEval:
         raise Unsupported('call form')
 
     # ---- spec functions
+    def fn_is_identifier(self, n):
+        a = self.e.ev(n.args[0])
+        ch = z3.Union(z3.Range('a', 'z'), z3.Range('A', 'Z'), z3.Range('0', '9'), z3.Re('_'))
+        return SV(BOOL, z3.InRe(a.z, z3.Plus(ch)))
+
+    def fn_is_hex40(self, n):
+        a = self.e.ev(n.args[0])
+        ch = z3.Union(z3.Range('0', '9'), z3.Range('a', 'f'))
+        return SV(BOOL, z3.InRe(a.z, z3.Loop(ch, 40, 40)))
+
+    def fn_concat(self, n):
+        parts = [self.e.ev(x).z for x in n.args]
+        return SV(STR, z3.Concat(*parts))
+
     def fn_contains(self, n):
         a = self.e.ev(n.args[0])
         b = self.e.ev(n.args[1])
@@ -1646,6 +1663,10 @@ class CallEval:
             v = self.e.ev(n.args[0])
             if v.t == U('PL'):
                 return SV(U('PV'), self.ctx.dt_info['PTuple'][2](v.z))
+            if v.t == U('PV'):
+                dti = self.ctx.dt_info
+                self.e.may_raise.append((z3.Or(dti['is_PList'][2](v.z), dti['is_PTuple'][2](v.z)), 'TypeError', 'tuple() of a non-sequence value'))
+                return SV(U('PV'), dti['PTuple'][2](z3.If(dti['is_PList'][2](v.z), dti['litems'][2](v.z), dti['titems'][2](v.z))))
             return self._as_set(v, 'list' if v.t.k == 'list' else 'set')
         return self.fn_list(n)
 
@@ -1653,6 +1674,10 @@ class CallEval:
         v = self.e.ev(n.args[0])
         if v.t == U('PE'):
             return SV(U('PV'), self.ctx.dt_info['PFrozen'][2](v.z))
+        if v.t == U('PV'):
+            dti = self.ctx.dt_info
+            self.e.may_raise.append((z3.Or(dti['is_PDict'][2](v.z), dti['is_PFrozen'][2](v.z)), 'TypeError', 'frozendict() of a non-mapping value'))
+            return SV(U('PV'), dti['PFrozen'][2](z3.If(dti['is_PDict'][2](v.z), dti['dents'][2](v.z), dti['fents'][2](v.z))))
         raise Unsupported(f'frozendict({v.t})')
 
     def fn_dict(self, n):
